@@ -3,7 +3,7 @@ package main
 // Extractor "Locks" -> coq/Gen/FactsLocks.v (property C19).
 //
 // Reads, with go/parser + go/ast only, every non-test file of the packages that own locks
-// (., internal/backend, internal/session, internal/state, async, store, internal/db_impl/sqlite3, internal/utils, watcher)
+// (., db, internal/backend, internal/session, internal/state, async, store, internal/db_impl/sqlite3, internal/utils, watcher)
 // and computes the lock NESTINGS: which lock may be requested while which other lock is held.
 //
 //   - a lock operation is a call X.Lock() / X.RLock() / X.Unlock() / X.RUnlock(); the lock is named after the type that owns
@@ -39,7 +39,7 @@ import (
 
 func init() { register("Locks", factsLocks) }
 
-var lockDirs = []string{".", "internal/backend", "internal/session", "internal/state", "async", "store", "internal/db_impl/sqlite3", "internal/utils", "watcher"}
+var lockDirs = []string{".", "db", "internal/backend", "internal/session", "internal/state", "async", "store", "internal/db_impl/sqlite3", "internal/utils", "watcher"}
 
 // interface type -> the implementation the server uses
 var ifaceImpl = map[string]string{
@@ -48,6 +48,7 @@ var ifaceImpl = map[string]string{
 	"state.Connector":      "backend.stateConnectorImpl",
 	"db.ClientInterface":   "sqlite3.Builder",
 	"session.backendIface": "backend.Backend",
+	"state.AppendOnlyMailbox": "state.Mailbox",
 }
 
 // functions that run their function-literal argument on a new goroutine (or later): not within the caller's extent
@@ -486,7 +487,7 @@ func (a *lockAn) bindParams(f *lfunc, call *ast.CallExpr, c *lctx) (map[string]*
 }
 
 func (a *lockAn) walkFunc(f *lfunc, call *ast.CallExpr, c *lctx) {
-	if c.depth > 14 {
+	if c.depth > 40 {
 		return
 	}
 	for _, p := range c.path {
@@ -518,7 +519,7 @@ func (a *lockAn) walkFunc(f *lfunc, call *ast.CallExpr, c *lctx) {
 }
 
 func (a *lockAn) walkClosure(cl *lclosure, c *lctx, label string) {
-	if c.depth > 14 {
+	if c.depth > 40 {
 		return
 	}
 	env := map[string]*ltyp{}
@@ -587,7 +588,8 @@ func (a *lockAn) walkStmt(s ast.Stmt, c *lctx) {
 	case *ast.GoStmt:
 		n := c.fork()
 		n.held = nil
-		n.path = append(append([]string{}, c.path...), "go")
+		n.depth = 0
+		n.path = []string{c.fn.key, "go"}
 		if fl, ok := v.Call.Fun.(*ast.FuncLit); ok {
 			a.walkClosure(&lclosure{lit: fl, fn: c.fn, env: c.env, clos: c.clos}, n, "go func")
 			return
@@ -773,7 +775,8 @@ func (a *lockAn) walkExpr(e ast.Expr, c *lctx, _ bool) {
 		if async {
 			n := c.fork()
 			n.held = nil
-			n.path = append(append([]string{}, c.path...), name+" (new goroutine)")
+			n.depth = 0
+			n.path = []string{c.fn.key, name + " (new goroutine)"}
 			for _, arg := range v.Args {
 				if fl, ok := arg.(*ast.FuncLit); ok {
 					a.walkClosure(&lclosure{lit: fl, fn: c.fn, env: c.env, clos: c.clos}, n, "func literal")
